@@ -196,15 +196,29 @@ def make_handler():
 
     class Obj(objects.DBusObject):
         iface = interface.DBusInterface('org.example.T', interface.Method('M'), interface.Property('P', 's'),
-                                        interface.Property('W', 's', readable=False, writeable=True))
-        dbusInterfaces = [iface]
+                                        interface.Property('W', 's', readable=False, writeable=True),
+                                        interface.Property('Count', 'u', writeable=True), interface.Property('Enabled', 'b'),
+                                        interface.Property('Label', 's'), interface.Property('Tags', 'as'))
+        iface2 = interface.DBusInterface('org.example.U', interface.Method('N'), interface.Property('Q', 'i'))
+        dbusInterfaces = [iface, iface2]
         P = objects.DBusProperty('P')
         W = objects.DBusProperty('W')
+        # readable properties whose current values are 0, False, '' and an empty array are properties all the same
+        Count = objects.DBusProperty('Count')
+        Enabled = objects.DBusProperty('Enabled')
+        Label = objects.DBusProperty('Label')
+        Tags = objects.DBusProperty('Tags')
+        Q = objects.DBusProperty('Q', 'org.example.U')
 
         def __init__(self, path):
             objects.DBusObject.__init__(self, path)
             self.P = 'value'
             self.W = 'secret'
+            self.Count = 0
+            self.Enabled = False
+            self.Label = ''
+            self.Tags = []
+            self.Q = -1
 
     c = Conn()
     return objects.DBusObjectHandler(c), c, Obj
@@ -232,8 +246,10 @@ def query_all(h, conn, exported):
             if got != want:
                 return 'GetManagedObjects(%s) lists %r, expected %r' % (q, got, want)
             for p, ifs in r.body[0].items():
-                if 'org.example.T' not in ifs or set(ifs['org.example.T']) != {'P'}:
-                    return 'GetManagedObjects(%s): object %s reported with %r' % (q, p, ifs)
+                want_ifs = {'org.example.T': {'P': 'value', 'Count': 0, 'Enabled': False, 'Label': '', 'Tags': []}, 'org.example.U': {'Q': -1}}
+                got_ifs = {k: v for k, v in ifs.items() if k.startswith('org.example.')}
+                if got_ifs != want_ifs:
+                    return 'GetManagedObjects(%s): object %s reported with %r, its interfaces and readable properties are %r' % (q, p, ifs, want_ifs)
         # Introspect
         conn.sent.clear()
         call = message.MethodCallMessage(q, 'Introspect', interface='org.freedesktop.DBus.Introspectable')
